@@ -157,6 +157,9 @@ theorem C13_idle_after_every_batch (ops : List Op) (hv : ∀ op ∈ ops, op.Vali
     (run Table.ofGen Defects.none init ops).conn.txn = none :=
   run_idle Table.ofGen Defects.none ops init (fun op ho => allRollback_ofGen (hv op ho)) rfl (Or.inl rfl)
 
+/- The two witnesses are stated for the switch itself (not for `Defects.asImplemented`), so that a fix in
+   /repo only needs `Defects.asImplemented` flipped (then `C13_table_defectsAsInSource` checks again). -/
+
 /-- a batch that writes one row on day 1 -/
 def witnessBatch : List Msg := [{ kind := .mutation, stmts := [.put 1 1 1] }]
 def nextBatch : List Msg := [{ kind := .write, stmts := [.aux (.conf 1)] }]
@@ -165,16 +168,18 @@ def nextBatch : List Msg := [{ kind := .write, stmts := [.aux (.conf 1)] }]
     the batch is answered `Err` and nothing is visible (atomicity holds), but the transaction stays
     open, and the next batch — any batch — fails at BEGIN. -/
 theorem C13_breaks_marksFailureLeavesTxnOpen :
-    let r := processBatch Table.ofGen Defects.asImplemented init witnessBatch (some .marks)
+    let D : Defects := { Defects.none with marksFailureLeavesTxnOpen := true }
+    let r := processBatch Table.ofGen D init witnessBatch (some .marks)
     r.2 = [.err] ∧ r.1.db = init.db ∧ r.1.conn.txn.isSome = true ∧
-    processBatch Table.ofGen Defects.asImplemented r.1 nextBatch none = (r.1, [.err]) := by decide
+    processBatch Table.ofGen D r.1 nextBatch none = (r.1, [.err]) := by decide
 
 /-- **C13_breaks_commitFailureLeavesTxnOpen** (site 15). The same after a COMMIT that fails and leaves
     the transaction active. -/
 theorem C13_breaks_commitFailureLeavesTxnOpen :
-    let r := processBatch Table.ofGen Defects.asImplemented init witnessBatch (some .commit)
+    let D : Defects := { Defects.none with commitFailureLeavesTxnOpen := true }
+    let r := processBatch Table.ofGen D init witnessBatch (some .commit)
     r.2 = [.err] ∧ r.1.db = init.db ∧ r.1.conn.txn.isSome = true ∧
-    processBatch Table.ofGen Defects.asImplemented r.1 nextBatch none = (r.1, [.err]) := by decide
+    processBatch Table.ofGen D r.1 nextBatch none = (r.1, [.err]) := by decide
 
 /-- once that has happened, EVERY later batch of the instance fails and changes nothing, until the process
     is restarted -/
